@@ -3241,7 +3241,7 @@ def dict_to_Expr(d, modifs = {}, opmode = x86_afs.u32, admode = x86_afs.u32, seg
             if opmode == x86_afs.u16:
                 if size == x86_afs.u16:
                     size = x86_afs.u32
-                else:
+                elif size == x86_afs.u32:
                     size = x86_afs.u16
             return ExprInt(tab_afs_int[size](d[ia32_rexpr.imm]))
         if ia32_rexpr.symb in d:
